@@ -31,19 +31,42 @@ class P(Prop):
         ("TracklibVerif.Props.C17", "TV.C17.pure", "computeAbsCurv / estimate_speed leave positions, timestamps and every other feature unchanged"),
         ("TracklibVerif.Props.C17", "TV.C17.only_adds", "on a fresh track the feature table only gains one appended column (abs_curv resp. speed); the temporary ds is removed"),
         ("TracklibVerif.Props.C17", "TV.C17.idempotent", "a second computeAbsCurv / estimate_speed returns the same column and leaves the track as it was"),
+        ("TracklibVerif.Props.C17", "TV.C17.abscurv_table", "on ANY feature table satisfying the laws (Track API: create appends a slot, reads/writes/deletes go through the name's index): computeAbsCurv = addAnalyticalFeature(ds) + Integrator + remove(ds) + read terminates, returns [absc 0..] of the CURRENT positions, abs_curv reads it afterwards, every other name, the coordinates, the times and the invariant are unchanged"),
+        ("TracklibVerif.Props.C17", "TV.C17.abscurv_table_again", "on a lawful table that lists abs_curv, computeAbsCurv returns the listed column and every name / coordinate reads as before (temporary ds created and removed)"),
+        ("TracklibVerif.Props.C17", "TV.C17.speed_table", "on any lawful table of n>=2 fixes without speed: estimate_speed returns the speed column of the CURRENT positions and times, speed reads it afterwards, nothing else changes"),
+        ("TracklibVerif.Props.C17", "TV.C17.speed_table_again", "on a lawful table that lists speed, estimate_speed returns the listed column and does not change the state"),
+        ("TracklibVerif.Props.C17", "TV.C17.speedCol_def", "the entries of the speed column: fixes (1,0) / (n-1,n-2) / (i+1,i-1), NaN iff the elapsed time is zero, else distance / elapsed"),
+        ("TracklibVerif.Props.C17", "TV.C17.spec_table_lawful", "C01's specification table (name -> column) satisfies the laws of a feature table"),
+        ("TracklibVerif.Props.C17", "TV.C17.shared_world_lawful", "the world of Obs OBJECTS shared between tracks (per-object features list, per-track name->index dict) satisfies the laws for the track in focus whenever its objects carry AT LEAST as many slots as its dict lists (extra slots from other tracks allowed)"),
+        ("TracklibVerif.Props.C17", "TV.C17.abscurv_shared", "computeAbsCurv(track k) as one step of a history on shared observations: returns [absc 0..] of the current positions whatever foreign slots the objects carry; track k reads it under abs_curv"),
+        ("TracklibVerif.Props.C17", "TV.C17.speed_shared", "estimate_speed(track k) on shared observations: speed column of the current positions and of the absolute times of the CURRENT timestamp fields"),
+        ("TracklibVerif.Props.C17", "TV.C17.positions_and_stamps_unchanged", "for EVERY world (aligned or not, also on exceptions) and every feature operation / entry point: position and stamp of every observation object and the reference list of every track are unchanged"),
     ]
     partial = []
-    open_statements = ["IEEE rounding of sqrt / + / division is outside the theorems (ordered-field statement); sampled by the transfer check with rel. tolerance 1e-9"]
-    modelled = ("algo/analytics.py ds, speed; core/obs_coords.py ENUCoords.distance2DTo/__sub__/norm2D; core/operators.py Integrator.execute; "
-                "algo/cinematics.py computeAbsCurv, estimate_speed; core/track.py addAnalyticalFeature (IndexError -> NaN); the feature table is "
-                "abstracted to an ordered name -> column map (its alignment is C01)")
-    trusted = ["ObsTime.toAbsTime() values are computed by the harness as sec + ms/1000.0 (C03 covers the calendar conversion)",
-               "math.sqrt / x**2 are taken as correctly rounded sqrt and x*x"]
+    open_statements = ["IEEE rounding of sqrt / + / division is outside the theorems (ordered-field statement; the recurrences abscurv_prefix / abscurv_table / speed_table hold for any scalar type, so also for the Float operations in Python's order); sampled by the transfer check with rel. tolerance 1e-9",
+                       "the laws are proved for the specification table and for the world of shared observations; for C01's dict-and-rows table `St` of a single track they follow from C01's simulation theorems and are not restated here",
+                       "Track.length / computeCurvAbsBetweenTwoPoints / isSorted / duration are modelled (lengthT, curvAbsT, …) and covered by positions_and_stamps_unchanged; their VALUES (sum of legs) are checked by correspondence and by the oracle, not by a theorem"]
+    modelled = ("algo/analytics.py ds, speed; core/obs_coords.py ENUCoords.distance2DTo/distanceTo/__sub__/norm2D/norm; core/operators.py Integrator.execute, "
+                "Differentiator.execute; core/utils.py addListToAF; algo/cinematics.py computeAbsCurv, estimate_speed, computeCurvAbsBetweenTwoPoints; "
+                "core/track.py addAnalyticalFeature (IndexError -> NaN), createAnalyticalFeature (append + index len(dico)), removeAnalyticalFeature, "
+                "get/setObsAnalyticalFeature, getAnalyticalFeature, __setitem__(name, list), estimate_speed, getAbsCurv/getSpeed, length, isSorted, duration, getT, "
+                "__add__, extract, __getitem__(slice), copy (deep copy with memo); core/obs_time.py toAbsTime / __sub__ from the CURRENT fields (C03's ObsTimeG.toAbsG); "
+                "two models: Model/Cinematics.lean (a track = lists + name->column map) and Model/CinematicsTab.lean (the programs on the Track API of C01's "
+                "Model/Features.lean, instantiated at the specification table and at a WORLD of observation objects shared between tracks)")
+    trusted = ["math.sqrt / x**2 are taken as correctly rounded sqrt and x*x",
+               "single-track stream (`run`): ObsTime.toAbsTime() values are computed by the harness as sec + ms/1000.0; world stream: the model computes them from the timestamp fields (C03's toAbsG)"]
     rule = ("exhaustive: all tracks of 2..4 (quick) / 2..5 (thorough) fixes whose legs are k*(3,4), k in {-1,0,1,2}, with dt in {0,1,2} s, op word 'asas'; "
-            "random: exact lattice tracks (collinear 3-4-5 steps, scaled 3x4 rectangle corners, axis steps; integer seconds) run at Rat, "
-            "float tracks (short 1e-6 / long 1e7 legs, repeated positions and timestamps, optional millisecond stamps) run at Float with bit patterns, "
-            "and tracks with features present beforehand (other names, stale abs_curv / speed, user ds); op words over {a = computeAbsCurv, s = estimate_speed} "
-            "with repetitions. non-trivial = at least 2 fixes and at least one non-zero leg")
+            "all histories of 2 (quick) / 3 (thorough) operations over {computeAbsCurv, estimate_speed on a track and on a section sharing its observations, "
+            "addAnalyticalFeature(speed), remove abs_curv / speed, in-place edit of a position / of a timestamp field, duration()} on a 4-fix pool; "
+            "random single-track cases: exact lattice tracks at Rat, float tracks (short 1e-6 / long 1e7 legs, repeated positions and timestamps, millisecond stamps) at Float, "
+            "tracks with features present beforehand, op words over {a, s}; "
+            "random WORLD histories (c17world.py): a pool of 3..8 observations, tracks made by +, extract, slicing (shared Obs objects) and copy(), every entry point "
+            "(computeAbsCurv, estimate_speed function / method, addAnalyticalFeature(speed | ds), operate(INTEGRATOR | DIFFERENTIATOR), length, "
+            "computeCurvAbsBetweenTwoPoints, getAbsCurv / getSpeed / track[name], removeAnalyticalFeature, track[name] = list, isSorted / duration / getT), in-place edits of "
+            "positions (setX / setObsAnalyticalFeature / attribute) and of timestamp fields (sec, min, ms), directed templates (sum of a computed and a fresh segment, section then "
+            "parent, compute-edit-remove-recompute, time evaluation then field edit then speed, all orders, deep copy) plus free random histories; the oracle keeps its own "
+            "bookkeeping and checks every fresh (or still valid) computation against the CURRENT positions and stamps. non-trivial = at least 2 fixes, one non-zero leg"
+            " (world: and at least one computation)")
 
     def setup(self):
         from tracklib.core.obs import Obs
